@@ -110,8 +110,47 @@ def _item(it):
     return _operands(mn, ref)
 
 
+def permute_string_data(data: bytes, layout, seed: int) -> bytes:
+    """Rewrite the string_data section with the string_data_items in a seeded random PHYSICAL order,
+    independent of the (still sorted) string_ids: items are byte-aligned and contiguous, so the section
+    keeps its size; every string_id.string_data_off is patched and checksum/signature recomputed.
+    (harness/dexasm.py always writes the items in index order and has no knob for this.)"""
+    import random
+    import struct
+    sd = list(layout["string_data"])
+    if len(sd) < 2:
+        return data
+    ends = sd[1:]
+    q = sd[-1]
+    while data[q] & 0x80:          # uleb128 utf16_size
+        q += 1
+    q += 1
+    while data[q] != 0:            # MUTF-8 bytes never contain 0x00
+        q += 1
+    ends.append(q + 1)
+    if any(b != a2 for b, a2 in zip(ends[:-1], sd[1:])) or sorted(sd) != sd:
+        raise ValueError("string_data items are not contiguous")
+    items = [bytes(data[a:b]) for a, b in zip(sd, ends)]
+    order = list(range(len(sd)))
+    random.Random(seed).shuffle(order)
+    out = bytearray(data)
+    at = sd[0]
+    new_off = [0] * len(sd)
+    for i in order:
+        new_off[i] = at
+        out[at:at + len(items[i])] = items[i]
+        at += len(items[i])
+    assert at == ends[-1]
+    ids = layout["string_ids"]
+    for i, off in enumerate(new_off):
+        assert struct.unpack_from("<I", data, ids + 4 * i)[0] == sd[i]
+        struct.pack_into("<I", out, ids + 4 * i, off)
+    return dexasm.fix_checksum(bytes(out))
+
+
 def build_dex(d):
-    """(bytes of the DEX file, its string pool as the writer laid it out)"""
+    """(bytes of the DEX file, its string pool as the writer laid it out); `d["layout"]` (a seed) asks
+    for a permuted physical order of the string_data_items"""
     b = DexBuilder()
     for s in d.get("strings", []):
         b.extra_strings.append(s)
@@ -132,13 +171,16 @@ def build_dex(d):
             (dm if (m["static"] or m["name"] == "<init>") and code is not None else vm).append(mm)
         b.add_class(c["name"], static_fields=sf, instance_fields=inf, direct_methods=dm, virtual_methods=vm)
     data = b.build()
+    if d.get("layout"):
+        data = permute_string_data(data, b.layout, d["layout"])
     return data, list(b.strings)
 
 
 def merged(prog):
     """the single DEX holding all classes (and every extra pool string)"""
-    return [{"strings": [s for d in prog for s in d.get("strings", [])],
-             "classes": [c for d in prog for c in d["classes"]]}]
+    lay = [d["layout"] for d in prog if d.get("layout")]
+    return [dict({"strings": [s for d in prog for s in d.get("strings", [])],
+                  "classes": [c for d in prog for c in d["classes"]]}, **({"layout": lay[0]} if lay else {}))]
 
 
 # --------------------------------------------------------------------------- flat form (names only)
@@ -549,7 +591,10 @@ def gen_program(rng, big=False):
     prog = []
     for p in parts:
         extra = [rng.choice(strs + ["unused"])] if rng.random() < 0.3 else []
-        prog.append({"strings": extra, "classes": p})
+        dd = {"strings": extra, "classes": p}
+        if rng.random() < 0.5:
+            dd["layout"] = rng.randrange(1, 1 << 30)      # string_data_items in a permuted physical order
+        prog.append(dd)
     return prog
 
 
@@ -670,7 +715,9 @@ def work(args):
                 fails.append(({"prog": prog, "order": label, "against": ref[0]},
                               "the analysis of the same classes differs between add order/split %r and %r" % (ref[0], label),
                               None, d[0], d[1]))
-    return idx, reqs, real, fails, _stats(views[0][1]), len(views)
+    st = _stats(views[0][1])
+    st["dex_files_with_permuted_string_data"] = sum(1 for d in prog if d.get("layout"))
+    return idx, reqs, real, fails, st, len(views)
 
 
 # --------------------------------------------------------------------------- history stream (renames)
